@@ -363,6 +363,18 @@ theorem cliOnRsp_inv (P : B2Par) (s : B2Sys) (r : Resp) (hr : r ∈ s.rsps) (hin
       rw [ho']
       exact goodOut_of_storeSpec _ _ _ _ _ _ _ _ _ _ hspec g2 g3
 
+/-- `crcvStepS` is `crcvStep` unless there is no lg_crcv and `sent` is NULL -/
+theorem crcvStepS_cases (sent single : Bool) (cap : Nat) (junk : UInt8) (st : Option Crcv) (r : Resp) :
+    crcvStepS sent single cap junk st r = crcvStep single cap junk st r ∨
+    (st = none ∧ sent = false ∧ crcvStepS sent single cap junk st r =
+      (match r.blk with | some _ => (none, CrcvOut.skip) | none => (none, CrcvOut.plain r.payload))) := by
+  cases st with
+  | some lg => exact Or.inl rfl
+  | none =>
+    cases sent with
+    | true => exact Or.inl rfl
+    | false => exact Or.inr ⟨rfl, rfl, rfl⟩
+
 theorem b2Step_inv (P : B2Par) (hP : B2ParOK P) (s : B2Sys) (e : B2Event) (hinv : B2Inv P s) : B2Inv P (b2Step P s e) := by
   cases e with
   | appGet szx =>
@@ -374,11 +386,28 @@ theorem b2Step_inv (P : B2Par) (hP : B2ParOK P) (s : B2Sys) (e : B2Event) (hinv 
     | some q =>
       obtain ⟨num, szx⟩ := q
       exact srvOnReq_inv P hP s num szx hinv
-  | rspArrives j =>
+  | rspArrives j sent =>
     simp only [b2Step]
     cases hq : s.rsps[j]? with
     | none => exact hinv
-    | some r => exact cliOnRsp_inv P s r (List.mem_of_getElem? hq) hinv
+    | some r =>
+      simp only
+      rcases crcvStepS_cases sent P.single P.cap P.junk s.cli r with he | ⟨hc, hs, he⟩
+      · rw [he]; exact cliOnRsp_inv P s r (List.mem_of_getElem? hq) hinv
+      · -- no lg_crcv and matched to no request: dropped
+        obtain ⟨num, szx, k, g1, _⟩ := hinv.rsp r (List.mem_of_getElem? hq)
+        have hskip : crcvStepS sent P.single P.cap P.junk s.cli r = (none, CrcvOut.skip) := by
+          rw [he, g1]
+        rw [hskip]
+        refine { rsp := hinv.rsp, func := hinv.func, srv := hinv.srv, cli := (by intro c hc'; cases hc'), outs := ?_ }
+        intro o ho
+        have ho' : o ∈ s.outs ++ [CrcvOut.skip] := ho
+        rcases List.mem_append.mp ho' with ho' | ho'
+        · exact hinv.outs o ho'
+        · rw [List.mem_singleton] at ho'
+          rw [ho']
+          exact ⟨fun d l h => (by cases h), fun off p total nx h => (by cases h), fun off p total h => (by cases h),
+            fun off p total h => (by cases h), fun p h => (by cases h)⟩
   | srvExpire =>
     exact { rsp := hinv.rsp, func := hinv.func, srv := (by intro x hx; cases hx), cli := hinv.cli, outs := hinv.outs }
   | cliExpire =>
